@@ -102,6 +102,10 @@ func LoadBackendEnsureUser(env *Env) func(*cobra.Command, []string) error {
 
 		_, err = identity.GetUserIdentity(env.Repo)
 		if err != nil {
+			// The command will not run, and neither will CloseBackend: release the backend here,
+			// or the repository stays locked by a process that is gone.
+			_ = env.Backend.Close()
+			env.Backend = nil
 			return err
 		}
 
